@@ -53,5 +53,8 @@ fi
 
 eng=$(engine_of "$id")
 [ "$eng" = none ] && { echo "unknown property $id" >&2; exit 2; }
+if [ "$id" = C16 ]; then # its concurrent part runs in the conc harness (race build: data races between helper calls)
+  build conc_race || { echo "BUILD-FAILED engine=conc (exit 2: the machinery could not be built against the current tree)" >&2; exit 2; }
+fi
 build "$eng" || { echo "BUILD-FAILED engine=$eng (exit 2: the machinery could not be built against the current tree)" >&2; exit 2; }
 exec "$VERIF_OUT/bin/$eng" "$id"
